@@ -340,9 +340,80 @@ func isZeroVal(v Value) bool {
 	return false
 }
 
+// pointerful reports whether v carries a heap reference the collector must see.
+func pointerful(v Value) bool {
+	switch x := v.(type) {
+	case Ptr:
+		return x.Blk != 0
+	case Str:
+		return x != ""
+	case Iface:
+		return x.T != nil
+	case MapRef:
+		return x != 0
+	case *Closure:
+		return x != nil
+	case RValue:
+		return !x.IsZeroRV
+	}
+	return false
+}
+
+var ptrSlotCache sync.Map // types.Type -> map[int64]bool (offsets of pointer words inside one element)
+
+func ptrSlots(t types.Type) map[int64]bool {
+	if v, ok := ptrSlotCache.Load(t); ok {
+		return v.(map[int64]bool)
+	}
+	m := map[int64]bool{}
+	var walk func(t types.Type, off int64)
+	walk = func(t types.Type, off int64) {
+		if isReflectValue(t) {
+			m[off], m[off+8] = true, true
+			return
+		}
+		switch u := t.Underlying().(type) {
+		case *types.Basic:
+			switch u.Kind() {
+			case types.String, types.UnsafePointer:
+				m[off] = true
+			}
+		case *types.Pointer, *types.Map, *types.Signature, *types.Chan, *types.Slice:
+			m[off] = true
+		case *types.Interface:
+			m[off], m[off+8] = true, true
+		case *types.Struct:
+			offs := fieldOffsets(u)
+			for i := 0; i < u.NumFields(); i++ {
+				walk(u.Field(i).Type(), off+offs[i])
+			}
+		case *types.Array:
+			es := sizeof(u.Elem())
+			if u.Len() <= 1024 {
+				for i := int64(0); i < u.Len(); i++ {
+					walk(u.Elem(), off+i*es)
+				}
+			}
+		}
+	}
+	walk(t, 0)
+	ptrSlotCache.Store(t, m)
+	return m
+}
+
 func (st *State) setCell(b *Block, off, size int64, v Value) {
 	if isZeroVal(v) {
 		return
+	}
+	if st.gcCheck && b.Typ != nil && pointerful(v) {
+		es := sizeof(b.Typ)
+		rel := off
+		if es > 0 {
+			rel = off % es
+		}
+		if !ptrSlots(b.Typ)[rel] {
+			st.gcViolation(fmt.Sprintf("a pointer-carrying value is stored at offset %d of memory allocated as %s (%s): the garbage collector does not see it", off, b.Typ.String(), b.Name))
+		}
 	}
 	if b.Cells == nil {
 		b.Cells = map[int64]Cell{}
